@@ -209,6 +209,15 @@ func (w *World) checkLoopNest(m *scoreModel, ln *loopNest, add func(ok bool, rul
 				got = append(got, dom[c.V])
 			}
 			want := p.oracleSeverity(s)
+			if okRow {
+				if m.rank == nil {
+					m.rank = map[string]map[string]int{}
+				}
+				m.rank[s.Metric] = map[string]int{}
+				for i, v := range got {
+					m.rank[s.Metric][v] = i
+				}
+			}
 			if okRow && sameSeq(got, want) {
 				add(true, "R04.sev", inst, sd.Call, fmt.Sprintf("%s is ranked in row %d = %v, the specification's order (most severe first); every effective value has a rank", s.Metric, sd.MConst, got))
 			} else {
@@ -312,6 +321,18 @@ func (w *World) checkLoopNest(m *scoreModel, ln *loopNest, add func(ok bool, rul
 					break
 				}
 				got = append(got, s)
+				if m.maxes == nil {
+					m.maxes = map[string]map[string][]map[string]string{}
+				}
+				if m.maxes[r.K] == nil {
+					m.maxes[r.K] = map[string][]map[string]string{}
+				}
+				mv := map[string]string{}
+				for _, part := range strings.Split(s, "/") {
+					kv := strings.SplitN(part, ":", 2)
+					mv[kv[0]] = kv[1]
+				}
+				m.maxes[r.K][l] = append(m.maxes[r.K][l], mv)
 			}
 			if bad != "" {
 				add(false, "R04.max", linst, r.Stmt, bad)
